@@ -185,6 +185,26 @@ def r4(c):
         mac = [x for x in calls_in(l1) if call_name(x) == "make_apply_commands"]
         okb = bool(mac) and all(isinstance(x, ast.Name) and any(d.kind == "unpack" and d.value is mac[0] for d in pv.rd.defs(x)) for x in e[1:])
         c.check("C09.R4", okb, repo.loc(m, app[0]), "apply_deploy_rulebook/wrapper-source", "before/after of an entry do not come from make_apply_commands for that path's rule", key_text="wrapper")
+    # the rule deciding a command's parameters and wrapper is the one matched for this very path (all of it) and context
+    ctxvar = l1.target.elts[1].id if isinstance(l1.target, ast.Tuple) and len(l1.target.elts) == 2 and isinstance(l1.target.elts[1], ast.Name) else None
+    users = [x for x in calls_in(l1) if call_name(x) in ("make_cmd_params", "make_apply_commands") and x.args]
+    if not users:
+        raise AnchorError("apply_deploy_rulebook: make_cmd_params / make_apply_commands calls not found")
+    for u in users:
+        v = pv.resolve_alias(u.args[0])
+        how = norm(v)[:60]
+        ok = False
+        if isinstance(v, ast.Call) and call_name(v).split(".")[-1] == "match_deploy_rule":
+            ok = len(v.args) >= 3 and norm(v.args[1]) == pathvar and norm(v.args[2]) == ctxvar and gm.in_loop(v) and gm.in_loop(v)[-1] is l1 and gm.formula(v) == G.T
+        elif isinstance(v, ast.Subscript) and isinstance(v.value, ast.Name):
+            # a memo: complete only if its key holds the whole path and the context
+            names = {x.id for x in ast.walk(pv.resolve_alias(v.slice)) if isinstance(x, ast.Name)}
+            whole = any(isinstance(x, ast.Name) and x.id == pathvar and not isinstance(getattr(x, "_parent", None), ast.Subscript) for x in ast.walk(pv.resolve_alias(v.slice)))
+            ok = whole and ctxvar in names
+            how = f"memo {norm(v)[:40]} keyed by {norm(pv.resolve_alias(v.slice))[:60]}"
+        c.check("C09.R4", ok, repo.loc(m, u), f"apply_deploy_rulebook/{call_name(u)}(rule)", f"the rule handed to {call_name(u)} is `{how}`, not match_deploy_rule(rules, {pathvar}, {ctxvar}) of this "
+                "iteration: rules are nested and matched along the whole block path, so the same command text under another block gets another rule's timeout, dialogs and wrapper",
+                key_text="rule-of-path")
     # second stage
     l2 = loops[1]
     it = l2.iter
